@@ -90,10 +90,12 @@ struct Ctx {
   // per-case state
   const Clause* cl = nullptr; const Args* args = nullptr;
   bool case_failed = false, case_skip = false, case_nontrivial = false, sampling = false;
-  std::vector<std::string> case_classes; std::string case_expect; std::vector<std::string> case_calls;
+  std::vector<const char*> case_classes; std::string case_expect; std::vector<std::string> case_calls;
   // accumulators
+  uint64_t bulk_evals = 0, bulk_nontrivial = 0;   // fast-path sweep cases (distinct by construction), not routed through evaluate()
   uint64_t evals = 0, executions = 0, nontrivial = 0, skipped = 0, excluded_known = 0, failing_evals = 0, evals_after_failure = 0;
-  std::map<std::string, uint64_t> classes;
+  std::unordered_map<const char*, uint64_t> classes_p;   // keyed by literal address; merged by text on output
+  std::map<std::string, uint64_t> classes_merged() const { std::map<std::string, uint64_t> m; for (auto& kv : classes_p) m[kv.first] += kv.second; return m; }
   HashSet64 distinct;
   std::vector<Sample> samples; uint64_t sample_stride = 0;
   Failure fail_first, fail_last;     // first = as found, last = last failing evaluation (the shrunk case under rapidcheck)
@@ -101,10 +103,10 @@ struct Ctx {
   std::map<std::string, long double> maxima;   // worst observed error per label (for the evidence)
   bool stop_requested = false;
 
-  void cls(const char* c) { case_classes.emplace_back(c); }
-  void cls(const std::string& c) { case_classes.push_back(c); }
+  void cls(const char* c) { case_classes.push_back(c); }   // c must have static storage duration
   void nontriv() { case_nontrivial = true; }
   void skip() { case_skip = true; }
+  bool verbose() const { return sampling || replay_mode; }
   void expect(const std::string& s) { if (sampling || replay_mode) case_expect = s; }
   void worst(const char* label, long double v) { auto it = maxima.find(label); if (it == maxima.end()) maxima[label] = v; else if (v > it->second) it->second = v; }
 
@@ -164,14 +166,14 @@ struct Ctx {
     sampling = !replay_mode && (evals <= 3 || (sample_stride && evals % sample_stride == 0)) && samples.size() < 40;
     c.check(*this, a);
     if (case_skip) { ++skipped; return true; }
-    for (const std::string& s : case_classes) ++classes[s];
+    for (const char* s : case_classes) ++classes_p[s];
     if (case_nontrivial) {
       ++nontrivial;
       uint64_t h = mix64(std::hash<std::string>()(c.id));
       for (int64_t v : a) h = mix64(h ^ (uint64_t)v);
       distinct.insert(h);
     }
-    if (sampling) { Sample s; s.args = a; s.nontrivial = case_nontrivial; s.classes = case_classes; s.calls = case_calls; s.expect = case_expect; if (s.calls.size() > 12) s.calls.resize(12); samples.push_back(std::move(s)); }
+    if (sampling) { Sample s; s.args = a; s.nontrivial = case_nontrivial; for (const char* q : case_classes) s.classes.emplace_back(q); s.calls = case_calls; s.expect = case_expect; if (s.calls.size() > 12) s.calls.resize(12); samples.push_back(std::move(s)); }
     if (case_failed) { ++failing_evals; return false; }
     return true;
   }
@@ -210,10 +212,10 @@ static inline void write_result(Ctx& ctx, const Clause& c, const std::string& pa
   FILE* f = fopen(path.c_str(), "w"); if (!f) { perror(path.c_str()); exit(2); }
   fprintf(f, "{\n \"clause\": \"%s\", \"property\": \"%s\", \"engine\": \"%s\", \"tier\": \"%s\", \"seed\": %" PRIu64 ", \"worker\": %d, \"nworkers\": %d,\n", c.id, c.property, c.engine, ctx.tier.c_str(), ctx.seed, ctx.worker, ctx.nworkers);
   fprintf(f, " \"desc\": \"%s\",\n \"note\": \"%s\",\n", jesc(c.desc).c_str(), jesc(note).c_str());
-  fprintf(f, " \"evaluations\": %" PRIu64 ", \"executions\": %" PRIu64 ", \"nontrivial\": %" PRIu64 ", \"distinct_nontrivial\": %zu, \"distinct_capped\": %s, \"skipped\": %" PRIu64 ", \"excluded_known\": %" PRIu64 ", \"failing_evals\": %" PRIu64 ", \"evals_after_failure\": %" PRIu64 ", \"exhaustive\": %s, \"wall_s\": %.3f,\n",
-          ctx.evals, ctx.executions, ctx.nontrivial, ctx.distinct.used, ctx.distinct.capped ? "true" : "false", ctx.skipped, ctx.excluded_known, ctx.failing_evals, ctx.evals_after_failure, exhaustive ? "true" : "false", wall_s);
+  fprintf(f, " \"evaluations\": %" PRIu64 ", \"executions\": %" PRIu64 ", \"nontrivial\": %" PRIu64 ", \"distinct_bulk\": %" PRIu64 ", \"distinct_nontrivial\": %zu, \"distinct_capped\": %s, \"skipped\": %" PRIu64 ", \"excluded_known\": %" PRIu64 ", \"failing_evals\": %" PRIu64 ", \"evals_after_failure\": %" PRIu64 ", \"exhaustive\": %s, \"wall_s\": %.3f,\n",
+          ctx.evals + ctx.bulk_evals, ctx.executions, ctx.nontrivial + ctx.bulk_nontrivial, ctx.bulk_nontrivial, ctx.distinct.used + (size_t)ctx.bulk_nontrivial, ctx.distinct.capped ? "true" : "false", ctx.skipped, ctx.excluded_known, ctx.failing_evals, ctx.evals_after_failure, exhaustive ? "true" : "false", wall_s);
   fprintf(f, " \"configs\": ["); for (size_t i = 0; i < ctx.cuts.size(); ++i) fprintf(f, "%s\"%s\"", i ? "," : "", ctx.cuts[i].name.c_str()); fprintf(f, "],\n");
-  fprintf(f, " \"classes\": {"); { bool first = true; for (auto& kv : ctx.classes) { fprintf(f, "%s\"%s\": %" PRIu64, first ? "" : ", ", jesc(kv.first).c_str(), kv.second); first = false; } } fprintf(f, "},\n");
+  fprintf(f, " \"classes\": {"); { bool first = true; for (auto& kv : ctx.classes_merged()) { fprintf(f, "%s\"%s\": %" PRIu64, first ? "" : ", ", jesc(kv.first).c_str(), kv.second); first = false; } } fprintf(f, "},\n");
   fprintf(f, " \"extra\": {"); { bool first = true; for (auto& kv : ctx.extra) { fprintf(f, "%s\"%s\": %" PRIu64, first ? "" : ", ", jesc(kv.first).c_str(), kv.second); first = false; } } fprintf(f, "},\n");
   fprintf(f, " \"maxima\": {"); { bool first = true; for (auto& kv : ctx.maxima) { fprintf(f, "%s\"%s\": %.6Lg", first ? "" : ", ", jesc(kv.first).c_str(), kv.second); first = false; } } fprintf(f, "},\n");
   fprintf(f, " \"known_hits\": {"); { bool first = true; for (auto& k : ctx.kfs) if (k.hits) { fprintf(f, "%s\"%d\": %" PRIu64, first ? "" : ", ", k.index, k.hits); first = false; } } fprintf(f, "},\n");
